@@ -93,7 +93,7 @@ func ixPath(r *kernel.Rand) string {
 	return filepath.Join(kernel.Pick(r, ixDirs), kernel.Pick(r, ixNames))
 }
 
-func (e *ixEngine) Generate(seed uint64, tier string) (json.RawMessage, error) {
+func (e *ixEngine) Generate(seed uint64, tier string, run int) (json.RawMessage, error) {
 	rk := kernel.NewRand(seed, "knobs")
 	rg := kernel.NewRand(seed, "gen")
 	rf := kernel.NewRand(seed, "fault")
